@@ -625,4 +625,30 @@ def classEnumFieldsOk (t : Tables) (enums : List (Name × Name × Int)) (e : Nam
   | none => false
   | some (prs, _) => prs.all (enumFieldOk enums)
 
+/-! ### composite option names (a name that stands for a tuple of C fields) -/
+
+/-- (class, property, literal name, [(attribute path the branch assigns, assigned literal or "?")]) -/
+abbrev CompositeRow := Name × Name × Name × List (Name × Name)
+
+def pathsOf (r : CompositeRow) : List Name := r.2.2.2.map (·.1)
+
+/-- what the branch assigns to the property itself (`self.integrator = "whfast"`) or to its field (`self._integrator`) -/
+def primaryOf (r : CompositeRow) : Option Name :=
+  match r.2.2.2.filter (fun s => nameEq s.1 r.2.1 || nameEq s.1 (95 :: r.2.1)) with
+  | s :: _ => some s.2
+  | [] => none
+
+def optEqName : Option Name → Option Name → Bool
+  | some a, some b => nameEq a b
+  | none, none => true
+  | _, _ => false
+
+def subsetNames (a b : List Name) : Bool := a.all fun x => memName x b
+
+/-- two literal names of the same setter that select the same primary value configure the same set of fields: a name
+    whose branch forgets a field that its siblings reset keeps that field's previous value (history dependence) -/
+def compositeUniform (rows : List CompositeRow) : Bool :=
+  rows.all fun a => rows.all fun b =>
+    !(nameEq a.1 b.1 && nameEq a.2.1 b.2.1 && optEqName (primaryOf a) (primaryOf b)) || subsetNames (pathsOf a) (pathsOf b)
+
 end RV.Layout
